@@ -246,6 +246,14 @@ class Builder:
             if n in REDUCTION_METHOD:
                 axis = None if p[0] == NOAXIS else p[0]
                 return getattr(x, REDUCTION_METHOD[n])(axis, bool(p[1]))
+            if n in ("mean", "var", "std"):
+                axis = None if p[0] == NOAXIS else p[0]
+                # (not x.var(...): Lambda has a FIELD named var)
+                from funsor.terms import Unary as _Unary
+                if n == "mean":
+                    return _Unary(ops.MeanOp(axis, bool(p[1])), x)
+                cls = ops.VarOp if n == "var" else ops.StdOp
+                return _Unary(cls(axis, int(p[2]), bool(p[1])), x)
             if n == "reshape":
                 return x.reshape(tuple(p))
             if n == "getslice":
@@ -276,6 +284,13 @@ class Builder:
                     subs[k] = v["name"]
                 else:
                     subs[k] = self.build(v)
+            if self.subs_pair_order == "reversed" and len(subs) > 1 and isinstance(x, Funsor):
+                # f(**kwargs) re-sorts the pairs by f.inputs; a substitution is a MAP, so the same
+                # pairs handed to Subs in another order must denote the same thing
+                from funsor.terms import Subs as _Subs, to_funsor as _to_funsor
+                pairs = tuple((k, _to_funsor(v, x.inputs[k])) for k, v in reversed(list(subs.items()))
+                              if k in x.inputs)
+                return _Subs(x, pairs) if pairs else x
             return x(**subs)
         if c == "Slice":
             return Slice(t["name"], t["start"], t["stop"], t["step"], t["dt"])
@@ -316,6 +331,7 @@ class Builder:
         raise NotImplementedError(c)
 
     rename_as_str = False
+    subs_pair_order = "call"      # "reversed": build Subs(f, pairs) with the pairs in reverse input order
     real_num_as_tensor = False
     leaf_shift = 0.0
     delta_point_as_tensor = False  # a Number point raises NotImplementedError in Delta.eager_subs (astype of a python bool)
